@@ -118,6 +118,13 @@ def c13(ck):
     ck.add_tlc("MC_Timer", mc)
     ck.require_coverage(mc, ["DoAdvance", "DoWrTAC", "DoWrTIMA", "DoWrTMA", "DoWrDIV"])
     ck.add_tlc("Thm_Timer", thm, mc=False)
+    if thorough:
+        # unbounded in the divider phase and in both batch lengths (up to 2^24 clocks): divider and increment count are additive
+        ap = {"edges_additive": vlib.apalache("ApaTimer.tla", ["--init=Init", "--inv=EdgesAdditive", "--length=0"]),
+              "additive_before_overflow": vlib.apalache("ApaTimer.tla", ["--init=Init", "--inv=AdditiveNoOverflow", "--length=0"])}
+        ck.extra["apalache_timer_additivity"] = ap
+        if any(v == "Error" for v in ap.values()):          # (a time-out is recorded as "unknown", not raised)
+            raise ToolError("Apalache refutes the timer's additivity: %s" % ap)
     scale = 20 if thorough else 1
     runs = [("random", ["timer-trace", "--mode", "random", "--events", 60000 * scale]),
             ("sweep", ["timer-trace", "--mode", "sweep", "--events", 40000 * scale]),
